@@ -590,7 +590,23 @@ func stackSig(readers []*index.Reader) (string, error) {
 	for _, s := range vis {
 		fmt.Fprintf(&sb, "%d:%s;", s.ID, s.ContentKey())
 	}
-	for _, qs := range mergeBattery {
+	// time filters with bounds taken from the streams themselves (every
+	// stream's first and last packet time is a bound once, from below and from
+	// above), so that per-file time ranges used for pruning matter
+	battery := append([]string(nil), mergeBattery...)
+	seenT := map[int64]bool{}
+	for _, s := range vis {
+		for _, ns := range []int64{s.FirstNS, s.LastNS} {
+			sec := ns / 1_000_000_000
+			if seenT[sec] || len(seenT) >= 12 {
+				continue
+			}
+			seenT[sec] = true
+			t := time.Unix(sec, 0).UTC().Format("2006-01-02 150405")
+			battery = append(battery, fmt.Sprintf("ltime:\"%s:\" sort:id", t), fmt.Sprintf("ltime:\":%s\" sort:id", t), fmt.Sprintf("ftime:\"%s:\" sort:id", t), fmt.Sprintf("ftime:\":%s\" sort:id", t))
+		}
+	}
+	for _, qs := range battery {
 		q, err := query.Parse(qs)
 		if err != nil {
 			return "", fmt.Errorf("battery %q: %w", qs, err)
